@@ -20,7 +20,7 @@ PYNAME = {"m1": "m_one", "m2": "m_two"}       # Python names with an inner under
 
 
 def class_src(hid, k, c, h, attrshadow=False, abstract="", viamodule=False) -> str:
-    bases = ", ".join((f"inhb.{cname(hid, b, h[b - 1]['pub'])}[int]" if viamodule and b == 1 else cname(hid, b, h[b - 1]["pub"])) for b in c["bases"])
+    bases = ", ".join((f"inha_base.{cname(hid, b, h[b - 1]['pub'])}[int]" if viamodule and b == 1 else cname(hid, b, h[b - 1]["pub"])) for b in c["bases"])
     if viamodule and k == 1:
         bases = (bases + ", " if bases else "") + "Generic[T_inh]"
     if abstract and c["pub"] and bases:
@@ -51,15 +51,15 @@ def main(v: Verdict) -> None:
                 a_parts.append(f"class Reg{hid}:\n    class {cname(hid, 1, False)}:\n        def decoy_m(self, from_decoy: int) -> int:\n            ...\n\n"
                                f"        def m1(self, from_c9: int) -> int:\n            ...\n")
             if sc.get("aliased"):
-                inits.append(f"from .{'inhb' if sc['split'] else 'inha'} import {cname(hid, 1, False)} as H{hid}C1Shown")
+                inits.append(f"from .{'inha_base' if sc['split'] else 'inha'} import {cname(hid, 1, False)} as H{hid}C1Shown")
             for k, c in enumerate(h, 1):
                 src = class_src(hid, k, c, h, sc.get("attrshadow", False), sc.get("abstract", ""), sc.get("viamodule", False))
                 if sc["split"] and k == 1:
                     b_parts.append(src)
-                    imports.append(f"from {pkg} import inhb" if sc.get("viamodule") else f"from {pkg}.inhb import {cname(hid, 1, c['pub'])}")
+                    imports.append(f"from {pkg} import inha_base" if sc.get("viamodule") else f"from {pkg}.inha_base import {cname(hid, 1, c['pub'])}")
                 else:
                     a_parts.append(src)
-        files = {"__init__.py": "\n".join(inits) + "\n", "inha.py": "from abc import ABC\n" + "\n".join(imports) + "\n\n" + "\n".join(a_parts), "inhb.py": "from typing import Generic, TypeVar\n\nT_inh = TypeVar(\"T_inh\")\n\n\n" + ("\n".join(b_parts) or "X = 1\n")}
+        files = {"__init__.py": "\n".join(inits) + "\n", "inha.py": "from abc import ABC\n" + "\n".join(imports) + "\n\n" + "\n".join(a_parts), "inha_base.py": "from typing import Generic, TypeVar\n\nT_inh = TypeVar(\"T_inh\")\n\n\n" + ("\n".join(b_parts) or "X = 1\n")}
         return write_pkg(files, pkg)
     # hierarchies whose private ancestor is re-exported under an alias go into packages of their own (300 each): the tool's re-export
     # bookkeeping is quadratic in the number of re-exports
